@@ -84,6 +84,21 @@ class UnitBuild:
                 raise Unsupported('record alias %s: no record matches %s' % (alias, pat))
             pick = cfg.get('rec_pick', {}).get(alias, 0)
             ctx.rec_alias[cands[pick].id] = alias
+        if cfg['target'].get('ghost'):
+            # lemma unit: the function under contract is ghost C text from the spec (a consequence of
+            # the callee contracts); the real functions it calls are listed under 'also'
+            self.target = None
+            self.target_cname = cfg['target']['ghost']
+            for sel in cfg.get('also', []):
+                ts = find_target(self.ast, sel)
+                if not ts:
+                    raise Unsupported('extra function not found: %r' % (sel,))
+                t = ts[sel.get('pick', 0)]
+                cn = ctx.fn_cname(t)
+                ctx.fn_mode[cn] = sel.get('mode', ctx.call_mode(t))
+                ctx.fn_queue.append(t)
+            ctx.lower_all()
+            return self.render()
         targets = find_target(self.ast, cfg['target'])
         if not targets:
             raise Unsupported('target function not found: %r' % (cfg['target'],))
@@ -110,6 +125,17 @@ class UnitBuild:
             ctx.fn_mode[cn] = sel.get('mode', ctx.call_mode(t))
             ctx.fn_queue.append(t)
         ctx.lower_all()
+        # constants the contracts mention although the lowered bodies do not
+        for spec in cfg.get('need_consts', []):
+            alias, name = spec.split('.')
+            rid = [i for i, a in ctx.rec_alias.items() if a == alias]
+            if not rid:
+                raise Unsupported('need_consts: unknown record alias %s' % alias)
+            r = self.ast.recs[rid[0]]
+            if name not in r.statics:
+                raise Unsupported('need_consts: %s has no static member %s' % (r.qname, name))
+            ctx.need_rec(r)
+            ctx.const_ref(r, r.statics[name])
         return self.render()
 
     # ------------------------------------------------------------------ rendering
@@ -167,6 +193,12 @@ class UnitBuild:
                 emit(';')
             else:
                 emit(sig + ';')
+        for gname, g in cfg.get('ghost_fns', {}).items():
+            emit(g['sig'])
+            for kind, tag, text in self.contract_text(gname, False):
+                emit(text, {'kind': kind, 'fn': gname, 'tag': tag, 'text': text, 'role': 'target'})
+            emit(g['body'])
+            ctx.fn_decls.setdefault(gname, g['sig'])
         # bodies
         for cname, body in ctx.fn_bodies.items():
             info = ctx.fn_info[cname]
@@ -374,6 +406,12 @@ def verify(cfile, workdir, cfg, target_cname, build):
         cmd += ['--unwind', str(cfg['unwind']), '--unwinding-assertions']
     for k, v in (cfg.get('unwindset') or {}).items():
         cmd += ['--unwindset', '%s:%d' % (k, v)]
+        fn, _, idx = k.rpartition('.')
+        if fn == target_cname:
+            # DFCC renames the function under verification
+            cmd += ['--unwindset', '%s_wrapped_for_contract_checking.%s:%d' % (fn, idx, v)]
+    if cfg.get('unwindset'):
+        cmd += ['--unwinding-assertions']
     if cfg.get('object_bits'):
         cmd += ['--object-bits', str(cfg['object_bits'])]
     if cfg.get('sat_solver'):
